@@ -173,20 +173,32 @@ func runConcurrent(c *core.Ctx, eng *engine.EngineFacade, r *core.Rand, nclients
 				switch in.Op {
 				case 'p':
 					var err error
+					// the client owns its buffers: it reuses (here: overwrites) them as soon as the call has returned
+					kb, vb := []byte(k), []byte(in.Val)
 					if concBatchPuts.Load() && rr.Chance(40) {
 						// the same write through the batch path of the log (the sequence counter is advanced at a different point there)
-						err = eng.ApplyBatch([]*wal.Entry{{Type: wal.OpTypePut, Key: []byte(k), Value: []byte(in.Val)}})
+						err = eng.ApplyBatch([]*wal.Entry{{Type: wal.OpTypePut, Key: kb, Value: vb}})
 					} else {
-						err = eng.Put([]byte(k), []byte(in.Val))
+						err = eng.Put(kb, vb)
+					}
+					for i := range kb {
+						kb[i] = 0xEE
+					}
+					for i := range vb {
+						vb[i] = 0xEE
 					}
 					if err != nil {
 						out.Err = err.Error()
 						errs.Add(1)
 					}
 				case 'd':
-					if err := eng.Delete([]byte(k)); err != nil {
+					kb := []byte(k)
+					if err := eng.Delete(kb); err != nil {
 						out.Err = err.Error()
 						errs.Add(1)
+					}
+					for i := range kb {
+						kb[i] = 0xEE
 					}
 				case 'g':
 					v, err := eng.Get([]byte(k))
